@@ -389,4 +389,78 @@ theorem slice_eq [Zero α] [Add α] (d : Doc α) (mask : List Bool) (ax : Axis) 
     unfold cellOf
     rw [slice_samp_values d.data (posFrom 0 mask) (posFrom_nodup 0 mask) i k hk]
 
+
+theorem getAxisIndices_ok (d : Doc α) (req : List Id) (ax : Axis)
+    (hsub : ∀ x ∈ req, x ∈ (d.recs ax).map (·.id)) :
+    getAxisIndices d req ax =
+      .ok (posFrom 0 (idMask ((d.recs ax).map (·.id)) req),
+           filterMask (d.recs ax) (idMask ((d.recs ax).map (·.id)) req)) := by
+  have h1 : req.all (fun i => ((d.recs ax).map (·.id)).contains i) = true := by
+    rw [List.all_eq_true]; intro x hx; exact List.contains_iff_mem.mpr (hsub x hx)
+  simp only [getAxisIndices, h1, Bool.not_true, Bool.false_eq_true, ↓reduceIte]
+  rw [recs_at_positions (d.recs ax) _ (by simp [idMask])]
+
+theorem getAxisIndices_refuses (d : Doc α) (req : List Id) (ax : Axis) (x : Id) (hx : x ∈ req)
+    (hxs : x ∉ (d.recs ax).map (·.id)) : getAxisIndices d req ax = .error .key := by
+  have h1 : req.all (fun i => ((d.recs ax).map (·.id)).contains i) = false := by
+    rw [List.all_eq_false]
+    exact ⟨x, hx, fun h => hxs (List.contains_iff_mem.mp h)⟩
+  simp only [getAxisIndices, h1, Bool.not_false, ↓reduceIte]
+
+/-- **`subset-table` on JSON = load everything and filter** (record/triple level): for a
+well-formed document whose metadata is uniformly null or uniformly an object on the subset axis,
+and requested IDs all present, the stitched document loads to the full table filtered to the
+request (no emptiness filter — the command documents that fully zeroed vectors may remain). -/
+theorem cmd_json_eq [Zero α] [Add α] (d : Doc α) (req : List Id) (ax : Axis) (hwf : Doc.WF d)
+    (hu : MdUniform (d.recs ax)) (hne : req ≠ []) (hsub : ∀ x ∈ req, x ∈ (d.recs ax).map (·.id)) :
+    cmdJson d req ax = .ok (filterAxis (docTable d) req ax) := by
+  obtain ⟨mask, hmask⟩ : ∃ m, m = idMask ((d.recs ax).map (·.id)) req := ⟨_, rfl⟩
+  have hm : mask.length = (d.recs ax).length := by simp [hmask, idMask]
+  -- something is kept
+  have hkne : filterMask (d.recs ax) mask ≠ [] := by
+    obtain ⟨x, hx⟩ := List.exists_mem_of_ne_nil _ hne
+    have hxin := hsub x hx
+    intro h
+    have h2 : filterMask ((d.recs ax).map (·.id)) mask = [] := by rw [filterMask_map, h]; rfl
+    rw [hmask, idMask, filterMask_map_pred] at h2
+    have : x ∈ ((d.recs ax).map (·.id)).filter (fun i => req.contains i) :=
+      List.mem_filter.mpr ⟨hxin, List.contains_iff_mem.mpr hx⟩
+    rw [h2] at this; cases this
+  have hpne : (posFrom 0 mask).isEmpty = false := by
+    cases hp : posFrom 0 mask with
+    | nil =>
+      have := posFrom_length 0 (d.recs ax) mask hm.symm
+      rw [hp] at this
+      exact absurd (List.length_eq_zero_iff.mp this.symm) hkne
+    | cons _ _ => rfl
+  have hbound : ∀ i ∈ posFrom 0 mask, i < (d.recs ax).length := by
+    intro i hi; have := mem_posFrom hi; omega
+  have hpos : 0 < (d.recs ax).length := by
+    cases hr : d.recs ax with
+    | nil => rw [hr] at hkne; exact absurd (filterMask_nil_left _) hkne
+    | cons _ _ => simp
+  have hmax : listMax (posFrom 0 mask) < (d.recs ax).length := listMax_lt _ _ hpos hbound
+  have hs := slice_eq d mask ax hwf hu hm hkne
+  subst hmask
+  cases ax with
+  | obs =>
+    have hmax' : ¬ (listMax (posFrom 0 (idMask ((d.recs .obs).map (·.id)) req)) ≥ d.shape.1) := by
+      rw [hwf.shapeRows]; simp only [Doc.recs] at hmax ⊢; omega
+    simp only [cmdJson, cmdJsonDoc, getAxisIndices_ok d req .obs hsub, directSliceData, hpne,
+      Bool.false_eq_true, ↓reduceIte, hmax']
+    simp only [sliceDoc, filterAxis, docTable, Table.ids, Doc.recs] at hs ⊢
+    exact hs
+  | samp =>
+    have hmax' : ¬ (listMax (posFrom 0 (idMask ((d.recs .samp).map (·.id)) req)) ≥ d.shape.2) := by
+      rw [hwf.shapeCols]; simp only [Doc.recs] at hmax ⊢; omega
+    simp only [cmdJson, cmdJsonDoc, getAxisIndices_ok d req .samp hsub, directSliceData, hpne,
+      Bool.false_eq_true, ↓reduceIte, hmax']
+    simp only [sliceDoc, filterAxis, docTable, Table.ids, Doc.recs] at hs ⊢
+    exact hs
+
+/-- the command refuses a request naming an ID that is not in the JSON document (`KeyError`) -/
+theorem cmd_json_unknown_refused [Zero α] [Add α] (d : Doc α) (req : List Id) (ax : Axis) (x : Id)
+    (hx : x ∈ req) (hxs : x ∉ (d.recs ax).map (·.id)) : cmdJson d req ax = .error .key := by
+  simp only [cmdJson, cmdJsonDoc, getAxisIndices_refuses d req ax x hx hxs]
+
 end Biom.C14
